@@ -23,6 +23,10 @@ EXPLANATION = (
   ' (PURE-query) the query methods of the time code classes (to_*, get_*, is_*, printing and comparison) assign no attribute of the object, so frame counts and offsets never come from a memo that a later add_frames leaves stale;'
   ' (FIN-parse) SmpteTimeCode.parse hands the constructor the rate it was given for `:` labels and the drop-frame rate (rate x 1000/1001 unless the denominator is already 1001) for `;` labels, for every base rate of the grid;'
   ' (LINT-k) no instance field declared with a numeric type is tested by truthiness (the number 0 would count as `not set`);'
+  ' (LINT-l) no tuple / list / set display of the anchored modules lists the same computed component twice and no dict display repeats a key (a key or fingerprint built that way cannot tell apart what the missing component would have);'
+  ' (STATE-share) no assignment stores a container field of one object (a field the package updates in place) into a field of another object without copying it, so an in-place update of one object never changes another;'
+  " (ITEM-source) an object built once per item of an inner loop is filled only with values that derive from that item or do not vary with the loops, never with a value of the enclosing container standing where the item's own belongs;"
+  ' (AGREE-dropmode) from_frames and to_frames decide for the same frame rates (evaluated on ten rates, helper predicates followed) whether the drop-frame correction applies;'
 )
 RULE_TEXT = "EXA: one instance per truncation / time sink call site; FMT: one instance per printer branch x separator choice x sample vector"
 UNDECIDED = ["frames -> label -> frames identity", "label validity and drop-frame label skipping", "monotonicity of successive frame counts",
@@ -301,6 +305,53 @@ def check_drop_count(ctx):
                 f"labels drift against frame counts, so from_frames and to_frames are not inverse at this rate (e.g. frame 15826 -> 00:10:59;20 -> 15827)")
 
 
+def check_drop_mode_agreement(ctx):
+  """AGREE-dropmode: from_frames and to_frames are inverse only if they apply the drop-frame correction to the
+  same rates.  The conditions that enclose the drop count in each are evaluated (helper predicates such as
+  is_drop_frame() are followed) for a grid of rates; they must give the same answer for every rate."""
+  from fractions import Fraction as F
+  from ..consteval import FuncEval, NotConst, Raised, _CallingConstEval
+  ix = ctx.ix
+  rates = [F(24), F(25), F(30), F(50), F(60), F(30000, 1001), F(60000, 1001), F(24000, 1001), F(48000, 1001), F(25025, 1001)]
+  verdicts = {}
+  sites = {}
+  for q in ("ttconv.time_code:SmpteTimeCode.from_frames", "ttconv.time_code:SmpteTimeCode.to_frames"):
+    f = ix.func(q)
+    ctx.unit(f.module)
+    defs_ = match.local_defs(f.node)
+    cand = [vs[0] for n, vs in defs_.items() if len(vs) == 1 and isinstance(vs[0], ast.Call) and unparse(vs[0].func).split(".")[-1] in ("round", "ceil", "floor", "int", "trunc")
+            and any(isinstance(x, ast.Constant) and x.value == 60 for x in ast.walk(vs[0])) and any(isinstance(x, ast.BinOp) and isinstance(x.op, ast.Sub) for x in ast.walk(vs[0]))]
+    if len(cand) != 1:
+      raise AnalysisError(f"{q}: the per-minute drop count (round(60 * (nominal - rate))) was not found")
+    conds = match.reaching_conditions(cand[0], f.node)
+    conds = [(t, pol) for (t, pol) in conds if "rate" in unparse(match.inline_locals_deep(f.node, t)) or "drop" in unparse(t)]
+    if not conds:
+      raise AnalysisError(f"{q}: the drop count is computed unconditionally (no drop-frame test encloses it)")
+    sites[q] = conds[0][0]
+    fe = FuncEval(ix)
+    out = []
+    for r in rates:
+      env = {"self._frame_rate": r}
+      env.update({p_: r for p_ in f.params if "rate" in p_})
+      cce = _CallingConstEval(ix, fe, f, 0, self_cls=f.cls)
+      try:
+        v = True
+        for (t, pol) in conds:
+          t2 = match.inline_locals_deep(f.node, t)
+          v = v and (bool(cce.ev(f.module, t2, f.cls, env)) == pol)
+      except (NotConst, Raised) as e:
+        raise AnalysisError(f"{q}: the drop-frame test `{short(conds[0][0], 50)}` leaves the evaluable subset ({e})")
+      out.append(v)
+    verdicts[q] = out
+  a, b = list(verdicts)
+  diff = [str(r) for r, x, y in zip(rates, verdicts[a], verdicts[b]) if x != y]
+  fa = ix.func(a)
+  ctx.check(not diff, "AGREE-dropmode", "ttconv.time_code:SmpteTimeCode|from_frames and to_frames count the same rates in drop-frame mode", ctx.where(fa.module, sites[a]),
+            f"both decide drop-frame mode identically for {len(rates)} rates",
+            f"from_frames tests `{short(sites[a], 50)}` and to_frames tests `{short(sites[b], 50)}`; they disagree at {', '.join(diff)} fps: one direction applies the "
+            f"drop-frame correction and the other does not, so to_frames(from_frames(n)) != n at those rates")
+
+
 def check_parse_rate(ctx):
   """FIN-parse: the frame rate of a parsed SMPTE label.  An `HH:MM:SS:FF` label counts at the rate
   it is given, whatever that rate; an `HH:MM:SS;FF` (drop-frame) label counts at the given rate if
@@ -358,6 +409,7 @@ def run(ctx):
   check_single_rounding(ctx)
   check_fmt(ctx)
   check_drop_count(ctx)
+  check_drop_mode_agreement(ctx)
   check_drop_frame_labels(ctx)
   nq = shape.check_pure_queries(ctx, [c for c in ix.classes.values() if c.module.name == "ttconv.time_code"])
   ctx.floor("PURE-query", "query methods of the time code classes", nq, 10)
